@@ -7,6 +7,7 @@
 (*   Fuzzify(var, x)          Variable.fuzzify: degree of every term at x  *)
 (*   HighestMembership(v, x)  Variable.highest_membership                  *)
 (*   HighestActivated(...)    Aggregated.highest_activated_term            *)
+(*   Discretize(t, ...)       Term.discretize                              *)
 (***************************************************************************)
 EXTENDS Engine
 
@@ -53,4 +54,9 @@ HighestActivated(acts, aggr) ==
      ELSE IF pos = {} THEN [term |-> "", degree |-> Zero]
      ELSE LET best == CHOOSE i \in pos : \A j \in pos : Ge(g[i].degree, g[j].degree) /\ (Eq(g[i].degree, g[j].degree) => i <= j)
           IN [term |-> g[best].term.name, degree |-> g[best].degree]
+\* Term.discretize(start, end, resolution, midpoints): the term sampled at the r midpoints of r equal cells, or at the r + 1
+\* equidistant points from start to end inclusive (numpy.linspace)
+Linspace(lo, hi, r) == [i \in 1..(r + 1) |-> Add(lo, Mul(Q(i - 1, r), Sub(hi, lo)))]
+Discretize(t, lo, hi, r, mid) == LET xs == IF mid THEN Midpoints(lo, hi, r) ELSE Linspace(lo, hi, r) IN
+                                 [i \in 1..Len(xs) |-> <<xs[i], MuX(t, xs[i])>>]
 =============================================================================
